@@ -42,7 +42,7 @@ MASK = [1, 1, 1, 0, 1, 1]
 N = 6
 
 KEY_CONTS = ("ndarray", "strided", "readonly", "pd_series", "pd_arrow", "categorical", "polars",
-             "pa_array", "pa_chunked")
+             "pa_array", "pa_chunked", "pd_index_named", "range_index_dict", "series_dict")
 VAL_CONTS = ("ndarray", "strided", "readonly", "pd_series", "pd_arrow", "polars", "pa_array",
              "pa_chunked", "frame")
 
@@ -84,6 +84,8 @@ def snap(x):
     if isinstance(x, pa.Array):
         return ("pa", str(x.type), tuple(None if b is None else b.to_pybytes() for b in x.buffers()),
                 x.offset, len(x))
+    if isinstance(x, dict):
+        return ("dict", tuple((repr(k), snap(v)) for k, v in x.items()))
     if isinstance(x, slice):
         return ("slice", x.start, x.stop, x.step)
     if x is None:
@@ -109,6 +111,14 @@ def make_input(arr, cont):
         return Holder(pd.Series(arr, copy=False), [arr])
     if cont == "categorical":
         return Holder(pd.Categorical(arr), [])
+    if cont == "pd_index_named":
+        return Holder(pd.Index(arr, name="orig"), [])
+    if cont == "range_index_dict":
+        ri = pd.RangeIndex(len(arr), name="orig")
+        return Holder({"k": ri}, [ri])
+    if cont == "series_dict":
+        ser = pd.Series(arr, name="orig")
+        return Holder({"k": ser}, [ser])
     if cont == "frame":
         return Holder(pd.DataFrame({"a": arr, "b": arr * 2 if arr.dtype.kind in "fiu" else arr}), [])
     # Arrow-backed: zero-copy views of the NumPy buffer where Arrow allows it
@@ -183,7 +193,7 @@ def scribble(a):
         a[...] = 77
 
 
-OPNAMES = ["size", "count", "sum", "mean", "min", "max", "first", "last", "var", "median", "quantile",
+OPNAMES = ["size", "size_obsF", "count", "sum", "mean", "min", "max", "first", "last", "var", "median", "quantile",
            "apply_sum", "agg_list", "sum_t", "min_t", "last_t", "count_t", "size_t", "cumsum", "cummin",
            "cummax", "cumcount", "rolling_sum", "rolling_min", "rolling_max", "shift", "diff",
            "rolling_sum_g", "ema_alpha", "ema_timed", "head2", "tail1", "nth0", "groups", "key_count"]
